@@ -5,6 +5,7 @@ from props.common import *
 from props.hmcommon import *
 
 HARNESSES = harnesses('quick')
+LEVEL = 'exploration'
 ASSUMPTIONS = [
     'SC interleavings only; iterator oracles: no access to reclaimed memory (xvrt quarantine), every yielded key was inserted, no key yielded twice in one traversal unless re-inserted, erase(iterator) linearizes as an erase of the referenced key, final traversal duplicate-free',
     'completeness (every element present throughout and ahead is yielded) is checked only in the final quiescent traversal against the linearized history',
